@@ -132,9 +132,53 @@ class ModuleState:
                 except Exception:  # noqa: BLE001
                     d[k] = v
             self.snap[m] = d
+        # data attributes of the classes the modules define (a process-wide cache kept on a class is module state too)
+        self.csnap = {}
+        for m in self.modules:
+            for cls in [v for v in vars(m).values() if isinstance(v, type) and getattr(v, "__module__", None) == m.__name__]:
+                self.csnap[cls] = {k: self._copy(v) for k, v in vars(cls).items() if self._is_data(k, v)}
+
+    @staticmethod
+    def _copy(v):
+        import copy
+
+        try:
+            return copy.deepcopy(v)
+        except Exception:  # noqa: BLE001
+            return v
+
+    @staticmethod
+    def _is_data(k, v):
+        import types
+
+        if k.startswith("__") or k.startswith("_abc_"):
+            return False
+        return not isinstance(v, (types.FunctionType, types.BuiltinFunctionType, types.MethodDescriptorType, types.GetSetDescriptorType,
+                                  types.MemberDescriptorType, property, staticmethod, classmethod, type))
+
+    def restore_classes(self):
+        for cls, d in self.csnap.items():
+            for k in [k for k, v in vars(cls).items() if self._is_data(k, v) and k not in d]:
+                try:
+                    delattr(cls, k)
+                except Exception:  # noqa: BLE001
+                    pass
+            for k, v in d.items():
+                cur = vars(cls).get(k, None)
+                try:
+                    same = cur is v or cur == v
+                except Exception:  # noqa: BLE001
+                    same = False
+                if not same:
+                    try:
+                        setattr(cls, k, self._copy(v))
+                    except Exception:  # noqa: BLE001
+                        pass
 
     def restore(self):
         import copy
+
+        self.restore_classes()
 
         for m, d in self.snap.items():
             for k in [k for k, v in vars(m).items() if not k.startswith("__") and not isinstance(v, self._skip) and k not in d]:
